@@ -45,6 +45,15 @@ def runQuestrade (c : Case) : Res :=
       | some (dk, m) => { verdict := "DIFF", tags := s!"dk={dk}" :: tags, msg := m }
       | none => { verdict := "ok", tags := tags }
 
+/-- Family `fuzz` (C05): the only model statement is "never a panic". -/
+def runFuzz (c : Case) : Res :=
+  let impl := (c.lines.find? (fun l => l.head? == some "impl")).getD []
+  let out := impl[1]?.getD "?"
+  let tags := ["nt=C05", s!"out={out}", s!"malformed={(kv? c.header "malformed").getD "?"}"]
+  if out == "panic" then
+    { verdict := "DIFF", tags := "dk=panic" :: tags, msg := "implementation panicked: " ++ String.intercalate " " (impl.drop 2) }
+  else { verdict := "ok", tags := tags }
+
 def dispatch (c : Case) : Res :=
   match c.family with
   | "ledger" => runLedger c
@@ -52,6 +61,7 @@ def dispatch (c : Case) : Res :=
   | "symbase" => runSymbase c
   | "splitneutral" => runSplitneutral c
   | "summary" => runSummary c
+  | "fuzz" => runFuzz c
   | "symparse" => runSymparse c
   | "pages" => runPages c
   | "fmv" => runFmv c
